@@ -18,15 +18,16 @@ def insert : Mem → Nat → Nat → Mem
     else if a = k then (a, v) :: rest
     else (k, x) :: insert rest a v
 
-/-- `Memory::read(address, bytes)`: little-endian, address wraps at 2^64 -/
-def read (m : Mem) (addr : Nat) : Nat → Nat → Nat
-  | 0, _ => 0
-  | n+1, i => m.get ((addr + i) % U64) * 2 ^ (8 * i) + read m addr n (i + 1)
+/-- `Memory::read(address, bytes)`: byte `k` of the result is the byte at `address + k` (wrapping at 2^64);
+    the Rust loop ORs in `byte << 8k` for `k = 0 .. bytes-1` -/
+def read (m : Mem) (addr : Nat) : Nat → Nat
+  | 0 => 0
+  | k+1 => read m addr k + m.get ((addr + k) % U64) * 256 ^ k
 
-/-- `Memory::write(address, value, bytes)` -/
-def write (m : Mem) (addr value : Nat) : Nat → Nat → Mem
-  | 0, _ => m
-  | n+1, i => write (m.insert ((addr + i) % U64) ((value >>> (8 * i)) % 256)) addr value n (i + 1)
+/-- `Memory::write(address, value, bytes)`: byte `k` of `value` goes to `address + k`, for `k = 0 .. bytes-1` in order -/
+def write (m : Mem) (addr value : Nat) : Nat → Mem
+  | 0 => m
+  | k+1 => (write m addr value k).insert ((addr + k) % U64) ((value / 256 ^ k) % 256)
 end Mem
 
 structure State where
@@ -65,7 +66,7 @@ def execAction (fl : Flags) (s : State) : Action → E State
         | some wire => do let v ← getOrPanic s.values wire; pure (v.bits > 0)
       if doRead then do
         let a ← getOrPanic s.values address
-        let v : WireValue := ⟨s.mem.read (a.bits % U64) bytes 0, .bits (bytes * 8)⟩
+        let v : WireValue := ⟨s.mem.read (a.bits % U64) bytes, .bits (bytes * 8)⟩
         pure { s with values := s.values.insert out v }
       else do
         let z ← asWidth ⟨0, .unlimited⟩ (.bits (bytes * 8))
@@ -77,7 +78,7 @@ def execAction (fl : Flags) (s : State) : Action → E State
       if doWrite then do
         let a ← getOrPanic s.values address
         let i ← getOrPanic s.values inp
-        pure { s with mem := s.mem.write (a.bits % U64) i.bits bytes 0 }
+        pure { s with mem := s.mem.write (a.bits % U64) i.bits bytes }
       else pure s
   | .setStatus inWire => do
       let v ← getOrPanic s.values inWire
@@ -145,3 +146,10 @@ def runLoop (fl : Flags) (p : Program) (timeout : Nat) : Nat → State → Optio
 def State.init (p : Program) (mem : Mem) : E State := do
   let vals ← p.initialValues
   pure { values := vals, regs := List.replicate 16 0, mem := mem }
+
+/-- `n` calls of `step()` -/
+def runN (fl : Flags) (p : Program) : Nat → State → E State
+  | 0, s => pure s
+  | n+1, s => do
+      let s' ← stepCycle fl p s
+      runN fl p n s'
